@@ -14,7 +14,9 @@ import (
 	"encoding/json"
 	"fmt"
 	"hash/crc32"
+	"errors"
 	"math/rand"
+	mrand2 "math/rand/v2"
 	"path/filepath"
 	"sync"
 	"sync/atomic"
@@ -22,6 +24,8 @@ import (
 
 	"github.com/WuKongIM/WuKongIM/pkg/raftlog"
 	"github.com/WuKongIM/WuKongIM/pkg/slot/multiraft"
+	"github.com/cockroachdb/pebble/v2"
+	"github.com/cockroachdb/pebble/v2/vfs"
 	"go.etcd.io/raft/v3/raftpb"
 )
 
@@ -39,7 +43,8 @@ type verifC12Cmd struct {
 //	apply    state machine applied command ID at Index/Term (Batch>0: part of ApplyBatch call #Batch)
 //	restore  state machine Restore(Index) with Content (Opening: during OpenSlot of a restart)
 //	snapshot state machine Snapshot() taken with its state at Index (N commands)
-//	open     node (re)started; close: node stopped
+//	open     node (re)started; close: node stopped gracefully; kill: node lost power (storage = crash image)
+//	leader   the network first saw Node send MsgApp/MsgHeartbeat/MsgSnap in Term for Slot: Node led that term
 //	ack      Future.Wait returned success (Index, Term, Data) for proposal ID submitted on Node
 //	fail     Future.Wait returned an error (Err) for proposal ID
 //	reject   Propose returned an error synchronously
@@ -66,7 +71,10 @@ type verifC12Event struct {
 type verifC12History struct {
 	Config  verifC12Config  `json:"config"`
 	Settled bool            `json:"settled"`
-	Events  []verifC12Event `json:"events"`
+	// SettleSeq: every event with Seq < SettleSeq happened before the poll
+	// round in which all replicas reported the same applied == commit index.
+	SettleSeq int64           `json:"settle_seq"`
+	Events    []verifC12Event `json:"events"`
 
 	mu  sync.Mutex
 	seq int64
@@ -78,6 +86,12 @@ func (h *verifC12History) add(e verifC12Event) {
 	e.Seq = h.seq
 	h.Events = append(h.Events, e)
 	h.mu.Unlock()
+}
+
+func (h *verifC12History) now() int64 {
+	h.mu.Lock()
+	defer h.mu.Unlock()
+	return h.seq + 1
 }
 
 func (h *verifC12History) marshal() []byte {
@@ -103,6 +117,7 @@ type verifC12Step struct {
 	Nodes   []int         `json:"nodes,omitempty"`
 	Slot    int           `json:"slot,omitempty"`
 	DownMS  int           `json:"down,omitempty"`
+	Unsynced int          `json:"unsynced,omitempty"` // Kill mode: percent of unsynced data that survives the power loss
 	PauseMS int           `json:"pause"`
 	Link    *verifC12Link `json:"link,omitempty"`
 }
@@ -119,6 +134,7 @@ type verifC12Config struct {
 	Trigger       uint64         `json:"trigger"` // 0: compaction disabled
 	SMKind        int            `json:"sm"`      // 0 plain Apply, 1 ApplyBatch, 2 ApplyBatch + DurableAppliedIndex
 	Pebble        bool           `json:"pebble"`
+	Kill          bool           `json:"kill"` // restarts are power losses: storage continues from a crash image (pebble on CrashableMem)
 	MaxSizePerMsg uint64         `json:"max_size_per_msg"`
 	MaxInflight   int            `json:"max_inflight"`
 	MaxApplying   int            `json:"max_applying"`
@@ -171,15 +187,44 @@ func (r *verifC12Rec) applyLocked(cmd multiraft.Command, batch int) []byte {
 	return []byte(verifC12Result(id))
 }
 
-func (r *verifC12Rec) Apply(_ context.Context, cmd multiraft.Command) ([]byte, error) {
+// verifC12Inc is one incarnation (process lifetime) of a node. After a power
+// loss the old incarnation may still be winding down inside the harness
+// process; nothing it does may reach the network or the state machine.
+type verifC12Inc struct {
+	n    int
+	dead atomic.Bool
+}
+
+var verifC12ErrDead = errors.New("verifC12: this incarnation lost power")
+
+type verifC12Snap struct {
+	Last    uint64        `json:"last"`
+	Content []verifC12Cmd `json:"content"`
+}
+
+// verifC12SM is the plain flavour: Apply, Restore, Snapshot only.
+type verifC12SM struct {
+	r   *verifC12Rec
+	inc *verifC12Inc
+}
+
+func (s verifC12SM) Apply(_ context.Context, cmd multiraft.Command) ([]byte, error) {
+	r := s.r
 	r.mu.Lock()
 	defer r.mu.Unlock()
+	if s.inc.dead.Load() {
+		return nil, verifC12ErrDead
+	}
 	return r.applyLocked(cmd, 0), nil
 }
 
-func (r *verifC12Rec) applyBatch(cmds []multiraft.Command) ([][]byte, error) {
+func (s verifC12SM) applyBatch(cmds []multiraft.Command) ([][]byte, error) {
+	r := s.r
 	r.mu.Lock()
 	defer r.mu.Unlock()
+	if s.inc.dead.Load() {
+		return nil, verifC12ErrDead
+	}
 	r.batches++
 	out := make([][]byte, len(cmds))
 	for i, cmd := range cmds {
@@ -188,14 +233,13 @@ func (r *verifC12Rec) applyBatch(cmds []multiraft.Command) ([][]byte, error) {
 	return out, nil
 }
 
-type verifC12Snap struct {
-	Last    uint64        `json:"last"`
-	Content []verifC12Cmd `json:"content"`
-}
-
-func (r *verifC12Rec) Snapshot(context.Context) (multiraft.Snapshot, error) {
+func (s verifC12SM) Snapshot(context.Context) (multiraft.Snapshot, error) {
+	r := s.r
 	r.mu.Lock()
 	defer r.mu.Unlock()
+	if s.inc.dead.Load() {
+		return multiraft.Snapshot{}, verifC12ErrDead
+	}
 	data, _ := json.Marshal(verifC12Snap{Last: r.last, Content: r.content})
 	inflight := int(r.c.inflight.Load())
 	r.c.hist.add(verifC12Event{Kind: "snapshot", Node: r.node, Slot: r.slot, Inc: int(r.inc.Load()),
@@ -203,18 +247,23 @@ func (r *verifC12Rec) Snapshot(context.Context) (multiraft.Snapshot, error) {
 	return multiraft.Snapshot{Index: r.last, Term: r.lastTerm, Data: data}, nil
 }
 
-func (r *verifC12Rec) Restore(_ context.Context, snap multiraft.Snapshot) error {
-	var s verifC12Snap
-	if err := json.Unmarshal(snap.Data, &s); err != nil {
+func (s verifC12SM) Restore(_ context.Context, snap multiraft.Snapshot) error {
+	r := s.r
+	var decoded verifC12Snap
+	err := json.Unmarshal(snap.Data, &decoded)
+	r.mu.Lock()
+	defer r.mu.Unlock()
+	if s.inc.dead.Load() {
+		return verifC12ErrDead
+	}
+	if err != nil {
 		// the state machine cannot make sense of the bytes it was handed:
 		// record it so that the oracle reports it, and refuse.
 		r.c.hist.add(verifC12Event{Kind: "restore", Node: r.node, Slot: r.slot, Inc: int(r.inc.Load()),
 			Index: snap.Index, Term: snap.Term, Opening: r.opening.Load(), Err: "undecodable snapshot: " + err.Error()})
 		return fmt.Errorf("verifC12: undecodable snapshot: %w", err)
 	}
-	r.mu.Lock()
-	defer r.mu.Unlock()
-	r.content = append([]verifC12Cmd(nil), s.Content...)
+	r.content = append([]verifC12Cmd(nil), decoded.Content...)
 	r.last, r.lastTerm = snap.Index, snap.Term
 	r.lastCmd = 0
 	if n := len(r.content); n > 0 {
@@ -226,35 +275,36 @@ func (r *verifC12Rec) Restore(_ context.Context, snap multiraft.Snapshot) error 
 	return nil
 }
 
-// three flavours so that the runtime sees exactly the interfaces it should
-type verifC12PlainSM struct{ *verifC12Rec }
-
-type verifC12BatchSM struct{ *verifC12Rec }
+// verifC12BatchSM adds ApplyBatch.
+type verifC12BatchSM struct{ verifC12SM }
 
 func (s verifC12BatchSM) ApplyBatch(_ context.Context, cmds []multiraft.Command) ([][]byte, error) {
 	return s.applyBatch(cmds)
 }
 
-type verifC12DurableSM struct{ *verifC12Rec }
+// verifC12DurableSM adds ApplyBatch and DurableAppliedIndex (what the
+// production FSM implements).
+type verifC12DurableSM struct{ verifC12SM }
 
 func (s verifC12DurableSM) ApplyBatch(_ context.Context, cmds []multiraft.Command) ([][]byte, error) {
 	return s.applyBatch(cmds)
 }
 
 func (s verifC12DurableSM) DurableAppliedIndex(context.Context) (uint64, error) {
-	s.mu.Lock()
-	defer s.mu.Unlock()
-	return s.lastCmd, nil
+	s.r.mu.Lock()
+	defer s.r.mu.Unlock()
+	return s.r.lastCmd, nil
 }
 
-func (r *verifC12Rec) sm(kind int) multiraft.StateMachine {
+func (r *verifC12Rec) sm(kind int, inc *verifC12Inc) multiraft.StateMachine {
+	base := verifC12SM{r: r, inc: inc}
 	switch kind {
 	case 1:
-		return verifC12BatchSM{r}
+		return verifC12BatchSM{base}
 	case 2:
-		return verifC12DurableSM{r}
+		return verifC12DurableSM{base}
 	default:
-		return verifC12PlainSM{r}
+		return base
 	}
 }
 
@@ -301,11 +351,13 @@ type verifC12Net struct {
 	wake    chan struct{}
 	done    chan struct{}
 
+	leaders map[[2]uint64]int // (slot, term) -> node seen sending leader-only messages
+
 	sent, dropped, duped, delivered, blockedDrops, snaps atomic.Int64
 }
 
 func verifC12NewNet(c *verifC12Cluster, seed int64, link verifC12Link) *verifC12Net {
-	n := &verifC12Net{c: c, rng: rand.New(rand.NewSource(seed)), link: link, blocked: map[[2]int]bool{},
+	n := &verifC12Net{c: c, rng: rand.New(rand.NewSource(seed)), link: link, blocked: map[[2]int]bool{}, leaders: map[[2]uint64]int{},
 		wake: make(chan struct{}, 1), done: make(chan struct{})}
 	go n.run()
 	return n
@@ -333,6 +385,14 @@ func (n *verifC12Net) send(from int, batch []multiraft.Envelope) {
 	for _, env := range batch {
 		to := int(env.Message.To)
 		n.sent.Add(1)
+		switch env.Message.Type {
+		case raftpb.MsgApp, raftpb.MsgHeartbeat, raftpb.MsgSnap:
+			k := [2]uint64{uint64(env.SlotID), env.Message.Term}
+			if _, seen := n.leaders[k]; !seen {
+				n.leaders[k] = from
+				n.c.hist.add(verifC12Event{Kind: "leader", Node: from, Slot: int(env.SlotID), Term: env.Message.Term})
+			}
+		}
 		if to < 1 || to > len(n.c.nodes) { // the phantom learner
 			continue
 		}
@@ -445,9 +505,13 @@ func (n *verifC12Net) heal() {
 type verifC12Transport struct {
 	net  *verifC12Net
 	from int
+	inc  *verifC12Inc
 }
 
 func (t verifC12Transport) Send(_ context.Context, batch []multiraft.Envelope) error {
+	if t.inc.dead.Load() {
+		return nil
+	}
 	t.net.send(t.from, batch)
 	return nil
 }
@@ -461,6 +525,8 @@ type verifC12Node struct {
 	mu     sync.RWMutex
 	rt     *multiraft.Runtime
 	db     *raftlog.DB
+	inc    *verifC12Inc
+	fs     *vfs.MemFS // Kill mode: the crashable file system pebble lives on
 	mem    []multiraft.Storage // per slot, memory backend (survives "restart")
 	recs   []*verifC12Rec      // per slot
 	starts int
@@ -522,17 +588,35 @@ func (n *verifC12Node) start() error {
 	var db *raftlog.DB
 	if cfg.Pebble {
 		var err error
-		db, err = raftlog.Open(filepath.Join(n.c.dir, fmt.Sprintf("node-%d", n.id)), raftlog.Options{WriteBatchMaxWait: 200 * time.Microsecond})
+		opts := raftlog.Options{WriteBatchMaxWait: 200 * time.Microsecond}
+		// the pebble-options hook is process-global: every Open of this
+		// harness goes through one mutex
+		verifC12OpenMu.Lock()
+		if cfg.Kill {
+			if n.fs == nil {
+				n.fs = vfs.NewCrashableMem()
+			}
+			fs := n.fs
+			raftlog.VerifPebbleOptions = func(o *pebble.Options) { o.FS = fs }
+			// an incarnation that lost power keeps running in this process
+			// until closed; its snapshot GC must not delete directories the
+			// crash image still refers to
+			opts.SnapshotGCGrace = time.Hour
+		}
+		db, err = raftlog.Open(filepath.Join(n.c.dir, fmt.Sprintf("node-%d", n.id)), opts)
+		raftlog.VerifPebbleOptions = nil
+		verifC12OpenMu.Unlock()
 		if err != nil {
 			return fmt.Errorf("raftlog.Open node %d: %w", n.id, err)
 		}
 	}
+	inc := &verifC12Inc{n: n.starts + 1}
 	compaction := multiraft.LogCompactionConfig{Enabled: cfg.Trigger > 0, EnabledSet: true, TriggerEntries: cfg.Trigger, CheckInterval: time.Nanosecond}
 	rt, err := multiraft.New(multiraft.Options{
 		NodeID:       multiraft.NodeID(n.id),
 		TickInterval: time.Duration(cfg.TickMS) * time.Millisecond,
 		Workers:      cfg.Workers,
-		Transport:    verifC12Transport{net: n.c.net, from: n.id},
+		Transport:    verifC12Transport{net: n.c.net, from: n.id, inc: inc},
 		Raft: multiraft.RaftOptions{
 			ElectionTick:     cfg.ElectionTick,
 			HeartbeatTick:    cfg.HeartbeatTick,
@@ -563,7 +647,7 @@ func (n *verifC12Node) start() error {
 		} else {
 			st = n.mem[s-1]
 		}
-		opts := multiraft.SlotOptions{ID: multiraft.SlotID(s), Storage: st, StateMachine: rec.sm(cfg.SMKind)}
+		opts := multiraft.SlotOptions{ID: multiraft.SlotID(s), Storage: st, StateMachine: rec.sm(cfg.SMKind, inc)}
 		rec.opening.Store(true)
 		if first {
 			err = rt.BootstrapSlot(ctx, multiraft.BootstrapSlotRequest{Slot: opts, Voters: n.c.voters(), Campaign: (s-1)%cfg.Nodes+1 == n.id})
@@ -580,9 +664,42 @@ func (n *verifC12Node) start() error {
 		}
 	}
 	n.mu.Lock()
-	n.rt, n.db = rt, db
+	n.rt, n.db, n.inc = rt, db, inc
 	n.mu.Unlock()
 	return nil
+}
+
+var verifC12OpenMu sync.Mutex
+
+// kill simulates a power loss: from one instant on nothing of this
+// incarnation reaches the network or the state machine, and the storage the
+// next incarnation opens is a crash image of the file system taken at that
+// instant (synced data survives, unsynced data survives only partly). The
+// state machine keeps its state like a durable FSM: it is frozen while the
+// image is taken, so it holds exactly what it had applied by then.
+func (n *verifC12Node) kill(unsyncedPercent int, seed uint64) error {
+	n.mu.Lock()
+	rt, db, inc := n.rt, n.db, n.inc
+	n.rt, n.db = nil, nil
+	n.mu.Unlock()
+	if rt == nil {
+		return nil
+	}
+	for _, r := range n.recs {
+		r.mu.Lock()
+	}
+	inc.dead.Store(true)
+	image := n.fs.CrashClone(vfs.CrashCloneCfg{UnsyncedDataPercent: unsyncedPercent, RNG: mrand2.New(mrand2.NewPCG(seed, 12))})
+	for _, r := range n.recs {
+		r.mu.Unlock()
+	}
+	n.c.hist.add(verifC12Event{Kind: "kill", Node: n.id, Inc: n.starts})
+	err := rt.Close()
+	if db != nil {
+		_ = db.Close()
+	}
+	n.fs = image
+	return err
 }
 
 // stop closes the runtime and then its storage (a process stop: everything
